@@ -36,7 +36,9 @@ MCWitness(t) ==
             [] t.tid = Q("H") -> CompV(DH, << Arr(VArr(P("AnyStruct")), <<Num("Int", "1"), CompV(DS2, <<Num("Int", "2")>>)>>) >>)
             [] t.tid = Q("N") -> CompV(DN, <<Some(CompV(DN, <<NilV, Num("UInt8", "2")>>)), Num("UInt8", "1")>>)
             [] t.tid = Q("T") -> CompV(DT, <<Num("Int", "3")>>)
-            [] t.tid = Q("E") -> CompV(DE, <<Num("UInt8", "1")>>))
+            [] t.tid = Q("E") -> CompV(DE, <<Num("UInt8", "1")>>)
+            [] t.tid = Q("K") -> CompV(DK, << Dict(DictT(DE, P("Int")), <<KV(CompV(DE, <<Num("UInt8", "0")>>), Num("Int", "5"))>>),
+                                             Arr(VArr(DS2), <<CompV(DS2, <<Num("Int", "1")>>)>>) >>))
 
 ImportableTypes ==
   {P(n) : n \in {"Int", "Int8", "UInt8", "UInt64", "Word8", "Int256", "UFix64", "Fix64", "Fix128", "Integer", "SignedInteger",
@@ -48,7 +50,13 @@ ImportableTypes ==
         DictT(P("String"), P("Int")), DictT(P("Int"), P("String")), DictT(P("String"), VArr(P("Int"))),
         DictT(P("String"), P("AnyStruct")), DictT(P("Address"), DS),
         DS, DS2, DH, DN, DT, DE, InterT(<<DSI>>), RangeT(P("Int")), RangeT(P("UInt8")),
-        CapT(<< RefT(Unauth, P("Int")) >>), OptT(CapT(<< RefT(Unauth, P("Int")) >>))}
+        CapT(<< RefT(Unauth, P("Int")) >>), OptT(CapT(<< RefT(Unauth, P("Int")) >>)),
+        \* composites in every container position: dictionary key (enum), dictionary value, array element, optional,
+        \* struct field, and two levels deep
+        DictT(DE, P("Int")), DictT(DE, DS), DictT(P("String"), DictT(DE, P("String"))), VArr(DictT(DE, P("Int"))),
+        OptT(DictT(DE, DS2)), DictT(DE, VArr(DE)), DictT(P("String"), DE), DictT(P("String"), OptT(DS)), OptT(DE),
+        VArr(OptT(DS)), VArr(VArr(DS2)), DictT(P("Int"), DictT(P("String"), DS2)), DK, VArr(DK), DictT(P("HashableStruct"), P("Int")),
+        CArr(DE, 2), DictT(P("String"), DN), VArr(DN), OptT(OptT(DS2))}
 NonImportableTypes ==
   {DR, P("AnyResource"), RefT(Unauth, P("Int")), FunT("impure", <<>>, <<>>, P("Void")), VArr(DR)}
 MCParamTypes == ImportableTypes \cup NonImportableTypes
